@@ -19,7 +19,7 @@ theorem stepHere_refines (n : NodeM) (op : Op) (hr : n.repOk = true) (hs : n.saf
   cases op with
   | get k =>
     have e : n.stepHere (.get k) = n.checkRaw.stepHere (.get k) := by simp only [NodeM.stepHere, hidem]
-    rw [e, ← c1]; exact here_get _ k c2 c3 (by simpa [NodeM.safeHere] using hs)
+    rw [e, ← c1]; exact here_get _ k c2 c3
   | idx i =>
     have e : n.stepHere (.idx i) = n.checkRaw.stepHere (.idx i) := by simp only [NodeM.stepHere, hidem]
     rw [e, ← c1]; exact here_idx _ i c2 c3
@@ -31,7 +31,7 @@ theorem stepHere_refines (n : NodeM) (op : Op) (hr : n.repOk = true) (hs : n.saf
     rw [e, ← c1]; exact here_iter _ c2 c3
   | set k v =>
     have e : n.stepHere (.set k v) = n.checkRaw.stepHere (.set k v) := by simp only [NodeM.stepHere, hidem]
-    rw [e, ← c1]; exact here_set _ k v c2 c3 (by simpa [NodeM.safeHere] using hs)
+    rw [e, ← c1]; exact here_set _ k v c2 c3
   | seti i v =>
     have e : n.stepHere (.seti i v) = n.checkRaw.stepHere (.seti i v) := by simp only [NodeM.stepHere, hidem]
     rw [e, ← c1]; exact here_seti _ i v c2 c3
@@ -40,7 +40,7 @@ theorem stepHere_refines (n : NodeM) (op : Op) (hr : n.repOk = true) (hs : n.saf
     rw [e, ← c1]; exact here_add _ v c2 c3
   | unset k =>
     have e : n.stepHere (.unset k) = n.checkRaw.stepHere (.unset k) := by simp only [NodeM.stepHere, hidem]
-    rw [e, ← c1]; exact here_unset _ k c2 c3 (by simpa [NodeM.safeHere] using hs)
+    rw [e, ← c1]; exact here_unset _ k c2 c3
   | unseti i =>
     have e : n.stepHere (.unseti i) = n.checkRaw.stepHere (.unseti i) := by simp only [NodeM.stepHere, hidem]
     rw [e, ← c1]; exact here_unseti _ i c2 c3
@@ -49,7 +49,7 @@ theorem stepHere_refines (n : NodeM) (op : Op) (hr : n.repOk = true) (hs : n.saf
     rw [e, ← c1]; exact here_pop _ c2 c3
   | move d s =>
     have e : n.stepHere (.move d s) = n.checkRaw.stepHere (.move d s) := by simp only [NodeM.stepHere, hidem]
-    rw [e, ← c1]; exact here_move _ d s c2 c3 (by simpa [NodeM.safeHere, NodeM.moveSafe, hidem] using hs)
+    rw [e, ← c1]; exact here_move _ d s c2 c3
   | sort r => exact here_sort n r hr
   | load => exact here_load n hr
   | raw => exact here_raw n hr
@@ -76,9 +76,9 @@ theorem child_key_none (t : Tree) (k : Key) (h : t.kind ≠ .obj) : t.child? (.k
 theorem child_idx_none (t : Tree) (i : Nat) (h1 : t.kind ≠ .arr) (h2 : t.kind ≠ .obj) : t.child? (.idx i) = none := by
   cases t <;> simp [Tree.kind] at h1 h2 <;> rfl
 
-theorem locate_spec (n : NodeM) (s : Sel) (hr : n.repOk = true) (hs : n.selSafe s = true) :
-    (n.locate s).1.abs = n.abs ∧ (n.locate s).1.repOk = true ∧ (n.locate s).2.2 = false ∧
-    (match (n.locate s).2.1 with
+theorem locate_spec (n : NodeM) (s : Sel) (hr : n.repOk = true) :
+    (n.locate s).1.abs = n.abs ∧ (n.locate s).1.repOk = true ∧
+    (match (n.locate s).2 with
      | some j => ∃ i, FoundAt (n.locate s).1 j i ∧ n.abs.child? s = n.abs.kidAt i ∧
          ∀ c, n.abs.setChild s c = n.abs.setKid i c
      | none => n.abs.child? s = none) := by
@@ -87,39 +87,37 @@ theorem locate_spec (n : NodeM) (s : Sel) (hr : n.repOk = true) (hs : n.selSafe 
   rw [c1] at hka
   cases s with
   | key k =>
-    simp only [NodeM.selSafe] at hs
     simp only [NodeM.locate]
     by_cases hk : n.checkRaw.kind = .obj
     · rw [if_neg (by simp [hk])]
-      obtain ⟨s1, s2, s3, s4⟩ := skipKey_spec _ k c2 c3 hk hs
+      obtain ⟨s1, s2, s3, s4⟩ := skipKey_spec _ k c2 c3 hk
       cases hf : (n.checkRaw.skipKey k).2 with
-      | panic => simp only [hf] at s4
       | no =>
         simp only [hf] at s4 ⊢
         obtain ⟨⟨kvs, ha, hfk⟩, _⟩ := s4
         rw [c1] at ha
-        refine ⟨by rw [s1, c1], s2, trivial, ?_⟩
+        refine ⟨by rw [s1, c1], s2, ?_⟩
         rw [ha]; simp [Tree.child?, hfk]
       | «at» j =>
         simp only [hf] at s4 ⊢
         obtain ⟨i, kvs, hfa, ha, hfk⟩ := s4
         rw [c1] at ha
         obtain ⟨k1, k2⟩ := child_key_found kvs k i hfk
-        refine ⟨by rw [s1, c1], s2, trivial, i, hfa, ?_, ?_⟩
+        refine ⟨by rw [s1, c1], s2, i, hfa, ?_, ?_⟩
         · rw [ha]; exact k1
         · rw [ha]; exact k2
     · rw [if_pos (by simpa using hk)]
-      refine ⟨c1, c2, rfl, ?_⟩
+      refine ⟨c1, c2, ?_⟩
       exact child_key_none _ _ (by rw [← hka]; exact hk)
   | idx i =>
     simp only [NodeM.locate]
     by_cases hk : n.checkRaw.kind ≠ .arr ∧ n.checkRaw.kind ≠ .obj
     · rw [if_pos hk]
-      exact ⟨c1, c2, rfl, child_idx_none _ _ (by rw [← hka]; exact hk.1) (by rw [← hka]; exact hk.2)⟩
+      exact ⟨c1, c2, child_idx_none _ _ (by rw [← hka]; exact hk.1) (by rw [← hka]; exact hk.2)⟩
     · rw [if_neg hk]
       obtain ⟨s1, s2, s3, s4⟩ := skipIndex_spec _ i c2 c3
       obtain ⟨k1, k2⟩ := child_idx n.abs i
-      refine ⟨by rw [s1, c1], s2, rfl, ?_⟩
+      refine ⟨by rw [s1, c1], s2, ?_⟩
       cases hf : (n.checkRaw.skipIndex i).2 with
       | none =>
         simp only [hf] at s4 ⊢
@@ -139,24 +137,23 @@ theorem stepAt_refines : ∀ (p : List Sel) (op : Op) (n : NodeM), n.repOk = tru
     Refines (n.stepAt p op) (n.abs.stepAt p op)
   | [], op, n, hr, hs => stepHere_refines n op hr hs
   | s :: p, op, n, hr, hs => by
-    simp only [NodeM.safeAt, Bool.and_eq_true] at hs
-    obtain ⟨hsel, hrest⟩ := hs
-    obtain ⟨l1, l2, l3, l4⟩ := locate_spec n s hr hsel
+    simp only [NodeM.safeAt] at hs
+    obtain ⟨l1, l2, l4⟩ := locate_spec n s hr
     rw [stepAt_cons_tree]
-    simp only [NodeM.stepAt, l3, Bool.false_eq_true, if_false]
-    cases hf : (n.locate s).2.1 with
+    simp only [NodeM.stepAt]
+    cases hf : (n.locate s).2 with
     | none =>
       simp only [hf] at l4 ⊢
       rw [l4]; exact ⟨rfl, l1, l2⟩
     | some j =>
-      simp only [hf] at l4 hrest ⊢
+      simp only [hf] at l4 hs ⊢
       obtain ⟨i, hfa, hc, hset⟩ := l4
       have hfa' := hfa
       obtain ⟨c, c1, c2, c3, c4, c5⟩ := hfa
-      simp only [c1, c2, if_true] at hrest ⊢
+      simp only [c1, c2, if_true] at hs ⊢
       rw [l1] at c4
       rw [hc, c4]
-      obtain ⟨q1, q2, q3⟩ := stepAt_refines p op c c3 hrest
+      obtain ⟨q1, q2, q3⟩ := stepAt_refines p op c c3 hs
       obtain ⟨e1, e2⟩ := setChildAt_spec _ j i (c.stepAt p op).2 l2 hfa' (repOk_live _ q3) q3
       refine ⟨q1, ?_, e2⟩
       show ((n.locate s).1.setChildAt j (c.stepAt p op).2).abs = n.abs.setChild s (c.abs.stepAt p op).2
@@ -178,5 +175,31 @@ theorem run_refines : ∀ (ops : List POp) (n : NodeM), n.repOk = true → safeR
     refine ⟨?_, i2, i3⟩
     rw [i1, q1]
     simp only [NodeM.canon, (encode_spec _ q3).1]
+
+
+/-! ### without `Len` nothing is excluded -/
+
+theorem safeAt_of_not_len (op : Op) (h : op.isLen = false) : ∀ (p : List Sel) (n : NodeM), n.safeAt p op = true
+  | [], n => by cases op <;> simp [Op.isLen] at h <;> rfl
+  | s :: p, n => by
+    simp only [NodeM.safeAt]
+    cases (n.locate s).2 with
+    | none => rfl
+    | some i =>
+      simp only
+      cases (n.locate s).1.childAt i with
+      | none => rfl
+      | some c =>
+        simp only
+        by_cases hc : c.live = true
+        · rw [if_pos hc]; exact safeAt_of_not_len op h p c
+        · rw [if_neg hc]
+
+theorem safeRun_of_no_len : ∀ (ops : List POp) (n : NodeM), (∀ o ∈ ops, o.op.isLen = false) → safeRun n ops = true
+  | [], _, _ => rfl
+  | o :: os, n, h => by
+    simp only [safeRun, safeStep, Bool.and_eq_true]
+    exact ⟨safeAt_of_not_len o.op (h o (by simp)) o.path n,
+      safeRun_of_no_len os _ (fun o' ho' => h o' (by simp [ho']))⟩
 
 end SonicSpec.Ast
